@@ -14,6 +14,8 @@ R = {
  "C15-e": (5, False, "C15 T4-core-type-table (v4 / z4 only for tables of 4 rows)", "a symbol with a larger normal quotient in which all generators are involutions, in a numbering that makes them so: 24 sheets instead of 6"),
  "C18-e": (5, True, "", "an i32 input that is a negative exact multiple of P"),
  "C19-e": (5, False, "C19 T4-cut-edges-leave-seen extended: nothing but cloned()/collect()/an identity map between the filter and the reported edges", "a directed 2-cycle v <-> w whose cut arc runs from the higher to the lower label"),
+ "C12-e": (5, False, "C12 T9-relators-unmodified (the enumeration stores expanded_relator_set(&rels) as it is)", "a length-two relator joining two different generators (c = b^-1) plus a relator using one of them with mixed signs: Z^2 = <a,b,c | [a,b], b c> enumerated as the Klein bottle group"),
+ "C17-e": (5, False, "T15 representatives-not-coarser (see C16-d)", "torus covers whose only size-reducing cut is one of the dropped candidates: 11 of 484 (symbol, dual) verdicts up to 4 chambers"),
  "C20-e": (5, True, "", "IntPartition: the largest element seen is the root of a class with several members, then clone() and a query on a smaller member"),
 }
 for sid, (rnd, first, strength, needs) in R.items():
